@@ -7,8 +7,8 @@ from harness.props import c05
 
 ID = 'C17'
 MODULE = 'Gpv.Props.C17'
-MODULES = ['Gpv.Props.C17', 'Gpv.Props.C17Float', 'Gpv.Props.C17FloatVar', 'Gpv.Props.C17FloatCov']
-THEOREMS = core.theorems('C17', 'C17Float', 'C17FloatVar', 'C17FloatCov')
+MODULES = ['Gpv.Props.C17', 'Gpv.Props.C17Float', 'Gpv.Props.C17FloatVar', 'Gpv.Props.C17FloatCov', 'Gpv.Props.C05FloatMatrix']
+THEOREMS = core.theorems('C17', 'C17Float', 'C17FloatVar', 'C17FloatCov', 'C05FloatMatrix')
 RULE = ('RunningMean / RunningVariance / RunningCovariance with lifetimes 1-50 (integers and non-integers >= 1), sequences below, at '
         'and above the lifetime, scalars and arrays, lifetime changed mid-stream; read after every push; model in exact rationals vs '
         'float implementation (rtol 1e-9); oracle: explicit weights (1/n in warm-up, then 1/L, decaying by 1-1/L, first L sharing one '
